@@ -74,6 +74,11 @@ ReqFails(repo, lines, o, r) ==
      \cup (IF ~o.stable \/ extra \subseteq TestingOn(p) THEN {} ELSE {"Suggest_NotTesting"})
      \cup (IF ~o.stable \/ \A a \in extra : \E v \in Versions(repo, p.name) : v # p /\ a \in StableOn(v)
            THEN {} ELSE {"Suggest_NotStableElsewhere"})
+     \* keywording: a suggestion is an arch this version does not carry yet (in any form) ...
+     \cup (IF o.stable \/ extra \cap (StableOn(p) \cup TestingOn(p) \cup NegOn(p)) = {} THEN {} ELSE {"Suggest_AlreadyCarried"})
+     \* ... that some version of the package is keyworded for
+     \cup (IF o.stable \/ \A a \in extra : \E v \in Versions(repo, p.name) : a \in StableOn(v) \cup TestingOn(v)
+           THEN {} ELSE {"Suggest_NotKeywordedElsewhere"})
 
 \* a stabilization must reject the first spec it cannot act on: nothing is yielded from that line on,
 \* and the run ends with an exception
